@@ -2,6 +2,7 @@
 
 //verif:dir p2p/host/resource-manager
 //verif:also C07 -
+//verif:also C11 VerifC03eSpansAnyOrder
 //verif:obligation C03.c reservations over the linearised parent set are all-or-nothing: ReserveMemory / AddStream / AddConn on a scope with 1..3 edges (thorough: ..4) or on a span under a DAG scope either charge the scope and every constraining scope by exactly the amount, or change nothing and return an error wrapping ErrResourceLimitExceeded / ErrResourceScopeClosed; releases decrease every scope by exactly the amount; ReserveForChild's three-stage internal undo restores every component
 //verif:obligation C03.e Done releases exactly the scope's usage to every parent once, is idempotent, and operations after Done change nothing; nested spans released in any order leave every scope at its previous value
 //verif:bound edges 1..3 (thorough 1..4), span depth 1..2, all usages/limits symbolic (counts < 2^40, memory any int64 <= limit), any priority (checkMemory by contract)
